@@ -87,3 +87,30 @@ Proof. eexists. eexists. split; [vm_compute; reflexivity|]. split; [vm_compute; 
 (** [C06_vlq_model_is_rust]: the range is the whole of isize; outside it the 64-bit computation differs *)
 Example vlq64_differs_outside : vlq_sextets64 (2 ^ 64 + 5)%Z <> vlq_sextets (2 ^ 64 + 5)%Z.
 Proof. vm_compute. discriminate. Qed.
+
+(** [C06_model_holds_writer]: the guards inside [holds] of a writer case ([op_small], [op_mapped],
+    [fmap_wf], [out_small]) are all true on the example above, so the theorem speaks about the real
+    branch of the predicate there *)
+From V Require C06.Corr.
+Example holds_writer_guards_example :
+  let fmap := Some (file_indices ex_store ex_doc) in
+  forallb Corr.op_small ex_ops && forallb (Corr.op_mapped fmap) ex_ops && Corr.fmap_wf fmap &&
+  match sw_run fmap ex_ops with
+  | Some st => Corr.out_small (c_buf (sw_cur st)) (nm_all (sw_names st))
+  | None => false
+  end = true.
+Proof. vm_compute. reflexivity. Qed.
+
+(** [C06_sources_resolve]: an output below, beside and above its sources, odd names included *)
+From V Require C20.Model.
+Example sources_resolve_example :
+  let out := s "/p/gen/deep/schema.d.ts" in
+  forallb (fun src => C20.Model.abs_ok (C20.Model.components out) && C20.Model.is_file (C20.Model.components out) &&
+                      C20.Model.abs_ok (C20.Model.components src) &&
+                      match C20.Model.relative_s out src with
+                      | Some rel => str_eqb (C20.Model.resolve_s out rel) (C20.Model.normalize_s src)
+                      | None => false
+                      end)
+          [s "/p/schema/a.graphql"; s "/p/gen/deep/x.graphql"; s "/p/gen/deep/sub/y.graphql"; s "/q r/..a/z.graphql"; s "/p/./gen/../b.graphql"] = true /\
+  C20.Model.relative_s out (s "/p/schema/a.graphql") = Some (s "../../schema/a.graphql").
+Proof. vm_compute. split; reflexivity. Qed.
